@@ -79,7 +79,6 @@ class BaseValidator:
         except TypeError as e:
             raise ValidationError(str(e)) from e
 
-    @ft.lru_cache(None)
     def signature(self, method: MethodType, exclude: Tuple[str, ...]) -> inspect.Signature:
         """
         Returns method signature.
@@ -89,10 +88,19 @@ class BaseValidator:
         :returns: signature
         """
 
+        # a bound method must not be a cache key: it keeps its instance (a per-request view and its context) alive
+        if inspect.ismethod(method):
+            return self._signature(method.__func__, exclude, True)
+
+        return self._signature(method, exclude, False)
+
+    @ft.lru_cache(None)
+    def _signature(self, method: MethodType, exclude: Tuple[str, ...], bound: bool) -> inspect.Signature:
         signature = inspect.signature(method)
+        parameters = list(signature.parameters.values())[1 if bound else 0:]
 
         method_parameters: List[inspect.Parameter] = []
-        for param in signature.parameters.values():
+        for param in parameters:
             if param.name not in exclude and not self._exclude_param(param.name, param.annotation, param.default):
                 method_parameters.append(param)
 
